@@ -563,6 +563,18 @@ def optional_coordinate_rule(m, run, mods=('operations', '_operations', 'BSpline
 
 
 def unit_range_rule(m, run, names, mods=('BSpline', 'abstract', 'NURBS')):
+    """RG2 (spelling-independent): the named methods interpreted on abstract un-normalised shapes never reach utilities.check_params and
+    hand the request on to the evaluator / operation slot.  RG1 (reads the guard spelling) corroborates."""
+    from . import skel_drivers as _sd
+    n0 = len(run.obs)
+    n2 = _sd.rg2(m, run, names)
+    ok = all(o.ok for o in run.obs[n0:])
+    with run.corroborating(ok, 'RG2', rules=('RG1.unit-range-check-only-when-normalised',)):
+        n = _unit_range_syntactic(m, run, names, mods)
+    return n + n2
+
+
+def _unit_range_syntactic(m, run, names, mods):
     """RG1: the rejection of parameters outside [0, 1] (utilities.check_params) applies to shapes with normalised knot vectors only:
     every evaluation of check_params in the named methods is reached only when `self._kv_normalize` holds (CFG facts on every
     path, or the preceding operand of the same `and`).  Shapes built with normalize_kv=False have other domains."""
@@ -593,7 +605,5 @@ def unit_range_rule(m, run, names, mods=('BSpline', 'abstract', 'NURBS')):
                    'evaluated only under self._kv_normalize' if ok else
                    'parameters are tested against [0, 1] also for shapes created with normalize_kv=False, whose domain is the range of their own knot vector: '
                    'valid parameters are rejected', site(fi, c))
-    # spelling-independent decision of the same clause (the test may have been moved into a helper, merged into one condition, ...)
-    from . import skel_drivers as _sd
-    n2 = _sd.rg2(m, run, names)
-    return n + n2
+    return n
+
